@@ -447,7 +447,7 @@ func (r *chunkReader) Read(p []byte) (int, error) {
 	return n, nil
 }
 func (r *chunkReader) Write(p []byte) (int, error) { return len(p), nil }
-func (r *chunkReader) Close() error                 { return nil }
+func (r *chunkReader) Close() error                { return nil }
 
 // bufRWC collects what a stream writes.
 type bufRWC struct{ bytes.Buffer }
